@@ -263,6 +263,10 @@ func (fc *FnCtx) lookupIn(env *Env, name string) Term {
 		return Term{c, sort}
 	}
 	c := fmt.Sprintf("%s!e%d", name, env.epoch)
+	if !fc.svHeap[name] {
+		// local cells, shared cells and ghosts are not affected by heap havoc
+		c = name + "!init"
+	}
 	fc.declare(c, sort)
 	return Term{c, sort}
 }
